@@ -34,6 +34,8 @@ class Run:
         -> (return value, events, self after)"""
         ev = []
         bufs = []
+        self.info_misses = []
+        self._member_info = None
         ofields = [tagged(t) for t in order]
         oasc = [True] * len(order)
         q = {"expr": interp.some(tagged("where")) if where is not None else interp.NONE,
@@ -58,6 +60,8 @@ class Run:
                 return ((),)
             if m == "conforms" or callee.endswith("Searcher::conforms"):
                 ev.append(("conforms",))
+                if member and not any(a is self._member_info for a in args):
+                    self.info_misses.append("the WHERE condition")
                 return (bool(where),)
             if m == "get_all_fields":
                 return ([interp.V("Field::" + c) for c in columns],)
@@ -70,6 +74,8 @@ class Run:
                 maps = [a for a in args if isinstance(a, interp.HMap)]
                 tag = e[0]["__tag"] if e else "?"
                 ev.append(("eval", tag))
+                if member and not any(a is self._member_info for a in args):
+                    self.info_misses.append(tag)        # evaluated without the archive member's own record
                 for mp in maps:
                     dict.__setitem__(mp, "<%s>" % tag, "val:%s" % tag)      # the evaluator's memo, keyed by the expression's text
                 return ({"__variant": "val:%s" % tag},)
@@ -143,7 +149,8 @@ class Run:
         env[self.self_param] = selfv
         if self.file_info_param is not None:
             # the entry proper (None) or a member of an archive (Some(FileInfo)): both go through the same pipeline
-            env[self.file_info_param] = interp.some(interp.Opaque("file_info")) if member else interp.NONE
+            self._member_info = interp.some(interp.Opaque("file_info"))
+            env[self.file_info_param] = self._member_info if member else interp.NONE
         got = interp.Interp(call=call, effect=effect, prog=self.ctx.prog, max_steps=60000).run(self.hir, env)
         return got, ev, selfv
 
@@ -183,6 +190,11 @@ def pipeline(ctx):
                                 return
                             n += 1
                             kinds = [e[0] for e in ev]
+                            if member:
+                                ctx.obligation(not run.info_misses)
+                                if run.info_misses:
+                                    bad("member-info", "for a member of an archive every expression of the row (select list, ORDER BY keys, GROUP BY keys) is evaluated on the "
+                                        "member's own record; %s: %s evaluated without it (the values of the archive file itself are used)" % (sc, sorted(set(run.info_misses))))
                             okv = lambda v: isinstance(got, interp.V) and got.name == "Result::Ok" and got.args[0] is v
                             if where is False:
                                 ok = okv(True) and not (set(kinds) & {"eval", "write_row", "insert", "stdout", "write_row_separator"}) and sv["found"] == found and not sv["raw_output_buffer"]
